@@ -197,12 +197,21 @@ def run(ctx):
     rs = ci.methods.get('_rowsum')
     if rs is None:
         raise AnalysisError('CliffordTableau._rowsum vanished')
-    gfn = [n for n in ast.walk(rs) if isinstance(n, ast.FunctionDef) and n.name == 'g']
+    # the phase function by role: the four-argument function _rowsum calls (nested, or a module-level helper), whatever it is called
+    gfn = []
+    for c in ast.walk(rs):
+        if isinstance(c, ast.Call) and isinstance(c.func, ast.Name) and len(c.args) + len(c.keywords) == 4:
+            cand = [n for n in ast.walk(rs) if isinstance(n, ast.FunctionDef) and n.name == c.func.id] or \
+                ([ci.mod.defs[c.func.id]] if isinstance(ci.mod.defs.get(c.func.id), ast.FunctionDef) else [])
+            if cand and len(cand[0].args.args) == 4:
+                gfn = cand
+                break
     if not gfn:
-        raise AnalysisError('_rowsum.g vanished')
+        raise AnalysisError('_rowsum: the four-argument phase function (g) vanished')
+    gp = [a.arg for a in gfn[0].args.args]
     bad = None
     for x1, z1, x2, z2 in itertools.product([0, 1], repeat=4):
-        it = fdx.Interp({'x1': fdx.Bit(x1), 'z1': fdx.Bit(z1), 'x2': fdx.Bit(x2), 'z2': fdx.Bit(z2)})
+        it = fdx.Interp({gp[0]: fdx.Bit(x1), gp[1]: fdx.Bit(z1), gp[2]: fdx.Bit(x2), gp[3]: fdx.Bit(z2)})
         try:
             got = it.call(gfn[0])
         except (fdx.Unsupported, fdx.Raised) as ex:
@@ -602,12 +611,14 @@ def _measurement_rule(ctx, repo):
             s_ = ast.unparse(call.func)
             if s_ == 'self._rowsum':
                 sub = fdx.NumInterp({'self': model, rfn.args.args[1].arg: it.ev(call.args[0]), rfn.args.args[2].arg: it.ev(call.args[1])}, call_hook=call_hook)
+                fdx.follow(sub, repo, ci, rfn)
                 sub.call(rfn)
                 return None
             if s_.endswith('.randint'):
                 return bit
             return NotImplemented
         it = fdx.NumInterp({'self': model, mfn.args.args[1].arg: a, mfn.args.args[2].arg: 'PRNG'}, call_hook=call_hook)
+        fdx.follow(it, repo, ci, mfn)   # helpers extracted from _measure / _rowsum are interpreted like the code they came from
         try:
             return it.call(mfn)
         except fdx.Unsupported as ex:
